@@ -31,5 +31,5 @@ CONSTANTS
   Gaps = {}
   Bugs = {"F2"}
 VIEW view
-INVARIANTS C01 C03 C04 C05 C06 C08 C11 C12 C13 C14 C15 StoreAgrees
+INVARIANTS C01 C02 C03 C04 C05 C06 C08 C11 C12 C13 C14 C15 StoreAgrees
 CHECK_DEADLOCK FALSE
